@@ -1,8 +1,8 @@
 (* Extraction of the C01 model. ExtrOcamlBasic only: bool, option, unit, list, prod,
    sumbool, sumor map to the OCaml types; numbers stay positive/N/nat. *)
-Require Import Pk.IndexFormat.
+Require Import Pk.IndexFormat Pk.IndexFormatPop.
 Require Extraction.
 Require Import ExtrOcamlBasic.
 Extraction "c01_model.ml"
-  new_writer add_streams finalize_reader new_reader_gen finalize encode_file decode_file
+  new_writer add_streams add_streams_pop finalize_reader new_reader_gen finalize encode_file decode_file
   all_streams stream_by_id stream_by_source observe r_ids r_min r_max assoc.
